@@ -1,31 +1,17 @@
 // scratch probes against the real API (no harness model in the loop)
-use automerge::transaction::Transactable;
 use automerge::*;
 
 fn main() {
-    std::panic::set_hook(Box::new(|_| {}));
-    let bytes = std::fs::read(std::env::args().nth(1).unwrap()).unwrap();
-    let mut d = AutoCommit::load(&bytes).unwrap();
-    let (t, _) = d.import("1@8001aaaaaaaaaaaaaaaaaaaaaaaaaaaa").unwrap();
-    println!("text={:?} len={}", d.text(&t).unwrap(), d.length(&t));
-    println!("marks={:?}", d.marks(&t).unwrap());
-    println!("spans={:?}", d.spans(&t).unwrap().collect::<Vec<_>>());
-    for i in 0..=d.length(&t) + 1 {
-        let mut c = d.clone();
-        let r = std::panic::catch_unwind(std::panic::AssertUnwindSafe(|| c.splice_text(&t, i, 0, "X").map(|_| ())));
-        let after = c.text(&t).unwrap();
-        let mut c2 = d.clone();
-        let r2 = std::panic::catch_unwind(std::panic::AssertUnwindSafe(|| c2.replace_block(&t, i).map(|_| ())));
-        println!("i={i}: splice_text {:?} -> {after:?} marks {:?}; replace_block {:?}", r.map_err(|_| "PANIC"), c.marks(&t).unwrap().iter().map(|m| (m.start, m.end)).collect::<Vec<_>>(), r2.map_err(|_| "PANIC"));
+    let dir = std::env::args().nth(1).unwrap();
+    let mut a = AutoCommit::load(&std::fs::read(format!("{dir}/a.bin")).unwrap()).unwrap();
+    let mut b = AutoCommit::load(&std::fs::read(format!("{dir}/b.bin")).unwrap()).unwrap();
+    let ha: std::collections::BTreeSet<_> = a.get_changes(&[]).iter().map(|c| c.hash()).collect();
+    for (n, d) in [("a", &mut a), ("b", &mut b)] {
+        println!("{n}: heads={:?}", d.get_heads().iter().map(|h| h.to_string()[..8].to_string()).collect::<Vec<_>>());
+        for ch in d.get_changes(&[]) {
+            println!("  {} actor={} seq={} start_op={} deps={:?} {}", &ch.hash().to_string()[..8], ch.actor_id(), ch.seq(), ch.start_op(), ch.deps().iter().map(|h| h.to_string()[..8].to_string()).collect::<Vec<_>>(), if n == "b" && !ha.contains(&ch.hash()) { "NEW" } else { "" });
+        }
     }
-    let mut c = d.clone();
-    c.join_block(&t, 3).unwrap();
-    println!("after join_block(3): text={:?} len={} spans={:?}", c.text(&t).unwrap(), c.length(&t), c.spans(&t).unwrap().collect::<Vec<_>>());
-    let mut r = AutoCommit::load(&c.save()).unwrap();
-    println!("reloaded:            text={:?} len={}", r.text(&t).unwrap(), r.length(&t));
-    for i in 0..=c.length(&t) {
-        let mut c2 = c.clone();
-        let r = std::panic::catch_unwind(std::panic::AssertUnwindSafe(|| c2.splice_text(&t, i, 0, "X").map(|_| ())));
-        println!("  i={i}: {:?} -> {:?}", r.map_err(|_| "PANIC"), c2.text(&t).unwrap());
-    }
+    let r = std::panic::catch_unwind(std::panic::AssertUnwindSafe(|| a.merge(&mut b)));
+    println!("merge: {:?}", r.map_err(|_| "PANIC"));
 }
